@@ -318,7 +318,7 @@ def main():
     calls = [c for c in top if c.words and not re.match(r"^[A-Za-z_][A-Za-z0-9_]*=", c.words[0]) and c.words[0] != "exec"
              and not (c.words[0] in PURE_TOP and not any(re.match(r"^\d*(>>?|>\||<>)", w) for w in c.words[1:]))]
     add("R19.a", "only-main-at-top", "bin/newpolicy.sh", "top-level commands other than assignments/exec/trap/echo: %s" % [c.text for c in calls],
-        len(calls) == 1 and calls[0].text == "main", "something other than `main` runs at top level (outside the lock)")
+        len(calls) == 1 and calls[0].words[0] == "main", "something other than `main` runs at top level (outside the lock)")
     if execs and calls:
         add("R19.a", "fd-before-main", "bin/newpolicy.sh", "lock descriptor is opened before main is called", execs[0].order < calls[0].order, "")
     mainc = [c for c in cmds if c.func == "main"]
@@ -582,7 +582,85 @@ def finish(dump=""):
     print("%s %s: %d obligations, %d discharged, %d known findings, %d violations (%.1fs)" % (PROP, TIER, len(obs), ndis, nknown, nviol, time.time() - START))
     sys.exit(1 if nviol else 0)
 
+# ---------------------------------------------------------------- facts for C12 (R12.4)
+
+DESTRUCTIVE = {"rm", "rmdir", "unlink", "mv", "shred", "truncate"}
+
+def lockdir_facts():
+    """For every shell script under bin/: the commands that remove or rename entries of a
+    directory named `lock` (the per-device lock files of drc / do-approve).  Variables are
+    replaced by every value the script assigns to them (assignments and `for V in words`),
+    to a fixed point; a path argument with a component `lock` makes the command a hit.
+    Output: JSON list of {script, ok, commands, detail} on stdout; nothing is executed."""
+    out = []
+    bindir = os.path.join(REPO, "bin")
+    for fn in sorted(os.listdir(bindir)):
+        p2 = os.path.join(bindir, fn)
+        if not os.path.isfile(p2):
+            continue
+        first = open(p2, errors="replace").readline()
+        if not re.match(r"^#!.*\b(sh|bash)\b", first):
+            continue
+        try:
+            tree, _ = parse_script(p2)
+        except Exception as e:
+            out.append({"script": fn, "ok": False, "commands": 0, "detail": "bash cannot parse the script: %s" % e})
+            continue
+        cmds = []
+        flatten(tree, "<top>", [], cmds)
+        vals = {}
+        for c in cmds:
+            m = re.match(r"^for (\w+) in (.*?);?$", c.text)
+            if m:
+                vals.setdefault(m.group(1), set()).update(w.strip("\"'") for w in words(m.group(2)))
+            for w in c.words:
+                m = re.match(r"^([A-Za-z_][A-Za-z0-9_]*)=(.*)$", w)
+                if m and w is c.words[0]:
+                    vals.setdefault(m.group(1), set()).add(m.group(2).strip("\"'"))
+        def expand(word, depth=0):
+            res = {word}
+            if depth > 3:
+                return res
+            for v, vs in vals.items():
+                for form in ("${%s}" % v, "$%s" % v):
+                    if form in word:
+                        for val in vs:
+                            res |= expand(word.replace(form, val), depth + 1)
+            return res
+        hits = []
+        for c in cmds:
+            if not c.words:
+                continue
+            name = os.path.basename(c.words[0])
+            destructive = name in DESTRUCTIVE
+            args = c.words[1:]
+            if name == "find":
+                destructive = "-delete" in args or any(a in ("-exec", "-execdir", "-ok") and k + 1 < len(args) and os.path.basename(args[k + 1]) in DESTRUCTIVE for k, a in enumerate(args))
+                # the start points of find are the words before the first option
+                sp = []
+                for a in args:
+                    if a.startswith("-") or a in ("(", "!"):
+                        break
+                    sp.append(a)
+                args = sp
+            if name in ("xargs", "sudo", "env", "nice") and len(args) > 0 and os.path.basename(args[0]) in DESTRUCTIVE:
+                destructive = True
+            if not destructive:
+                continue
+            for a in args:
+                if a.startswith("-"):
+                    continue
+                for e in expand(a.strip("\"'")):
+                    if re.search(r"(^|/)lock(/|$)", e):
+                        hits.append("%s: `%s` (argument %s can be %s)" % (c.func, c.text, a, e))
+                        break
+        out.append({"script": fn, "ok": not hits, "commands": len(cmds), "detail": "; ".join(sorted(set(hits)))})
+    print(json.dumps(out))
+
 if __name__ == "__main__":
+    if len(sys.argv) > 1 and sys.argv[1] == "--lockdir-facts":
+        lockdir_facts()
+        sys.exit(0)
     try:
         main()
     except SystemExit:
